@@ -293,6 +293,13 @@ def make_metric(M, mk, mkind, dim):
     if mkind == "dense_array":
         A, L = ml.spd(mk, "ml", dim)
         return A, A
+    if mkind == "dense_inv":
+        # a metric obtained as the inverse of a dense covariance: what OnlineCovarianceMetricAdapter.finalize installs
+        A, L = ml.spd(mk, "ml", dim)
+        return M.DensePositiveDefiniteMatrix(A).inv, ml.inv(A)
+    if mkind == "diag_inv":
+        d = mk.arr("m", dim, "pos")
+        return M.PositiveDiagonalMatrix(d).inv, np.diag(1 / d)
     if mkind == "scaled":
         s = mk.pos("ms")
         return M.PositiveScaledIdentityMatrix(s, dim), s * ml.eye(mk, dim)
